@@ -19,7 +19,8 @@ LEVEL = "exploration"
 RULE = ("sequences of 1-30 primaries against host and equipment handlers: S/F drawn from the handler's callbacks, catalogued "
         "functions without callback and uncatalogued numbers (streams 1..127 x odd functions); bodies structure-conforming "
         "(C03 generator), empty, truncated, random bytes, wrong item type; with and without W-bit; user callbacks registered "
-        "through register_stream_function that return a secondary, raise, or are unregistered again; distinct by "
+        "through register_stream_function that return a secondary, raise, or are unregistered again (also after they served "
+        "a primary); a primary that reuses the system bytes of a request of the handler that ran into T3; distinct by "
         "(role, S/F, W, body class, body bytes); non-trivial when the W-bit is set or a callback exists")
 ASSUMPTIONS = ["a library callback that does not read the body may answer a malformed body with its normal secondary: the "
                "allowed replies to a handled primary are {S,F+1} and {S,0}", "a failing callback on a message without W-bit may "
